@@ -43,9 +43,10 @@ def occurrences(p, out=None, depth=0):
     return out
 
 
-def decompose(rng, phi, S, nmax=3, consts=True):
-    """returns (subs: list of 'name = text', main text, const decls [[name, valuetext]], named: [(name, node)])"""
-    occ = [q for q in occurrences(phi) if q["op"] not in ("var", "const") and not _arith(q)]
+def decompose(rng, phi, S, nmax=3, consts=True, arith=False):
+    """returns (subs: list of 'name = text', main text, const decls [[name, valuetext]], named: [(name, node)]);
+    arith: arithmetic terms (load = req * 2) may be named, too"""
+    occ = [q for q in occurrences(phi) if q["op"] not in ("var", "const") and (arith or not _arith(q))]
     rng.shuffle(occ)
     chosen = occ[: rng.randint(1, nmax)] if occ else []
     # share: every occurrence structurally equal to a chosen one gets the same name
